@@ -902,8 +902,11 @@ class Material(DaeObject):
 
     def save(self):
         """Saves the material data back to :attr:`xmlnode`"""
-        self.xmlnode.set('id', str(self.id))
-        self.xmlnode.set('name', str(self.name))
+        for attr, value in (('id', self.id), ('name', self.name)):
+            if value is not None:
+                self.xmlnode.set(attr, str(value))
+            elif attr in self.xmlnode.attrib:
+                del self.xmlnode.attrib[attr]
         effnode = self.xmlnode.find(tag('instance_effect'))
         effnode.set('url', '#%s' % self.effect.id)
 
